@@ -230,7 +230,10 @@ void BpEndecodeArray(struct BpArrayDescriptor *descriptor,
 
     // Skip redundant bits if decoding.
     if (descriptor->extensible && (!ctx->is_encode)) {
-        int ito = i + (((int)ahead) * descriptor->cap);
+        // Number of bits each element occupies in the opponent's buffer,
+        // measured from the elements just decoded (16 is the ahead flag).
+        int element_nbits_decoded = (ctx->i - i - 16) / descriptor->cap;
+        int ito = i + 16 + (((int)ahead) * element_nbits_decoded);
         if (ito >= ctx->i) {
             ctx->i = ito;
         }
